@@ -16,6 +16,7 @@ import struct
 
 from .. import linear
 from ..model import unparse, walk_body_shallow
+from .util import *  # noqa: F401,F403
 from .util import const_value, reaching_defs, unchanged_between, call_name, call_recv, calls_in, need, node_assign_value, node_writes_attr, norm, where
 
 TECHNIQUE = "dominance of the CRC check, interval analysis of reader cursors, consumption check of count loops, " \
@@ -123,12 +124,15 @@ def run(ctx):
         if not stable or not (isinstance(val, ast.BinOp) and isinstance(val.op, ast.Add)):
             return "returned value is not `pack(crc) + body`"
         left, right = val.left, val.right
-        if not (isinstance(left, ast.Call) and call_name(left) == "pack" and len(left.args) == 2 and isinstance(right, ast.Name)):
+        from .. import wireshape as W_
+        wenv = W_.Env(prog, em)
+        pc = W_._pack_call(wenv, left)  # struct.pack(fmt, v) / a precompiled Struct's .pack(v), module- or class-level
+        if not (pc is not None and len(pc[1]) == 1 and isinstance(right, ast.Name)):
             return "returned value is not `pack(crc) + body`"
-        f2 = const_value(prog, em, left.args[0])
+        f2 = W_._fmt_value(wenv, pc[0])
         if not (isinstance(f2, str) and f2[:1] in ">!" and struct.calcsize(f2) == crc_size and f2[-1] in "IL"):
             return "checksum field is not a big-endian unsigned 32-bit integer"
-        cexpr = left.args[1]
+        cexpr = pc[1][0]
         cdefs = [(nid, cexpr)] if not isinstance(cexpr, ast.Name) else [
             (d, ce.nodes[d].stmt.value if isinstance(ce.nodes[d].stmt, ast.Assign) else None) for d in reaching_defs(ce, nid, cexpr.id)]
         if not cdefs:
@@ -235,7 +239,8 @@ def run(ctx):
                 "loop makes no progress: a 31-byte reply can claim 2**31-1 iterations", facts=["prefix=%d return paths=%d" % (prefix, npaths)])
 
     # ---- R5 count loops consume
-    r = ctx.rule("R5", "every count-driven loop of a decoder passes a checked read on every path through its body", 19, "B")
+    # floor: 19 loops on the reference tree; the two per-version produce decoders (2 loops each) may legitimately be one
+    r = ctx.rule("R5", "every count-driven loop of a decoder passes a checked read on every path through its body", 15, "B")
     kc = prog.cls("kafkacodec:KafkaCodec")
     n_loops = 0
     for f in sorted([x for x in prog.funcs.values() if x.module.name == "kafkacodec" and "decode" in x.qname], key=lambda x: x.qname):
